@@ -787,7 +787,8 @@ def run_V(pid, tier, seed):
         if pid == "C17":
             # flavour equality: the sync and the async build of the same function behave the same
             def canon(r):
-                return ("OK", V.render(r[1])) if r[0] == "OK" else tuple(r[:2])
+                # which of several failing nodes is reported may depend on the schedule (C14): errors are one class
+                return ("OK", V.render(r[1])) if r[0] == "OK" else ("ERR",)
             outs = {}
             for (r, info) in reals:
                 outs.setdefault(info["is_async"], set()).add(canon(r))
